@@ -26,6 +26,7 @@ type genOpts struct {
 	layouts       bool
 	secondOp      bool // a second operator swap on the same channel (both spellings)
 	peerOps       bool // the peer also initiates
+	adapters      int  // percent of lnd-flavoured nodes that run the real lnd adapter over the simulated LND (tier 2)
 	csvBurst      int  // percent of plans in which the chain jumps past the CSV during the fault phase (with service outages around the jump)
 	reorgs        bool
 	sites         []string
@@ -84,6 +85,11 @@ func genPlan(t *rapid.T, o genOpts) *world.Plan {
 		scn.Flavor[i] = pick(t, "flavor", o.flavors)
 		scn.LiquidBackend[i] = pick(t, "backend", o.backends)
 	}
+	for i := 0; i < 2; i++ {
+		if o.adapters > 0 && scn.Flavor[i] == "lnd" && rapid.IntRange(0, 99).Draw(t, "adapter") < o.adapters {
+			scn.Adapter[i] = "lnd"
+		}
+	}
 	scn.DurationSec = pick(t, "duration", o.duration)
 	scn.BlockEverySec = pick(t, "blockevery", []int{5, 20, 60})
 	scn.NetLatencyMs = pick(t, "netlat", []int{10, 50, 800})
@@ -95,6 +101,8 @@ func genPlan(t *rapid.T, o genOpts) *world.Plan {
 				Change:    rapid.Bool().Draw(t, "change"),
 				Extra:     rapid.IntRange(0, 1).Draw(t, "extra"),
 				SpendChange: rapid.Bool().Draw(t, "spendchange"),
+				DecoySameAmt: rapid.IntRange(0, 3).Draw(t, "decoy") == 0,
+				DecoyLast:    rapid.Bool().Draw(t, "decoylast"),
 			}
 		}
 	}
